@@ -150,13 +150,24 @@ def run_engines(seed):
             if l.startswith('SUMMARY'): ok += int(l.split('ok=')[1].split()[0])
     return fails, ok
 
-def run_driver(exe, lines, env=None, chunk=400, timeout=1800):
+def run_driver(exe, lines, env=None, chunk=400, timeout=1800, cpu_limit=600, mem_limit=8 * 2 ** 30):
     """feed case lines, return output lines (one per case); parallel over chunks"""
     import concurrent.futures
     chunks = [lines[i:i + chunk] for i in range(0, len(lines), chunk)]
+    def limits():
+        # a case that never terminates (or prints without end into a captured stream) must not take the machine down:
+        # CPU time and address space of every driver process are bounded; the process then dies and its cases count as crashed
+        import resource
+        resource.setrlimit(resource.RLIMIT_CPU, (cpu_limit, cpu_limit + 5))
+        if mem_limit:
+            resource.setrlimit(resource.RLIMIT_AS, (mem_limit, mem_limit))
     def one(c):
-        p = subprocess.run([exe], input='\n'.join(c) + '\n', stdout=subprocess.PIPE, stderr=subprocess.PIPE,
-                           universal_newlines=True, timeout=timeout, env=env)
+        try:
+            p = subprocess.run([exe], input='\n'.join(c) + '\n', stdout=subprocess.PIPE, stderr=subprocess.PIPE,
+                               universal_newlines=True, timeout=timeout, env=env, preexec_fn=limits)
+        except subprocess.TimeoutExpired as e:
+            class P: pass
+            p = P(); p.stdout = (e.stdout or b'').decode(errors='replace') if isinstance(e.stdout, bytes) else (e.stdout or ''); p.stderr = 'timeout'; p.returncode = -9
         out = [l for l in p.stdout.split('\n') if l.startswith('(')]
         if len(out) != len(c):
             # find the crashing case: report it as a crash line
@@ -173,7 +184,7 @@ def run_pair(cases, cxx_exe, ml_exe, env=None):
     e = dict(os.environ); e['VERIF_TMP'] = tmpdir
     if env: e.update(env)
     lines = [dump([i, t, cmd, args, []]) for (i, t, cmd, args) in cases]
-    cout = run_driver(cxx_exe, lines, env=e)
+    cout = run_driver(cxx_exe, lines, env=e, cpu_limit=180)
     mlines = []
     parsed = []
     for (i, t, cmd, args), o in zip(cases, cout):
@@ -182,7 +193,7 @@ def run_pair(cases, cxx_exe, ml_exe, env=None):
         parsed.append(po)
         mlines.append(dump([i, t, cmd, args, libm]))
     # the extracted model is the slow side (about 70 k floating-point operations per second): spread the cases over all cores
-    mout = run_driver(ml_exe, mlines, env=e, chunk=max(1, min(100, (len(mlines) + 47) // 48)))
+    mout = run_driver(ml_exe, mlines, env=e, chunk=max(1, min(100, (len(mlines) + 47) // 48)), cpu_limit=1500)
     global last_model_io
     last_model_io = (mlines, mout)
     out = []
